@@ -96,6 +96,17 @@ class TcpServer : noncopyable
   void removeConnection(const TcpConnectionPtr& conn);
   /// Not thread safe, but in loop
   void removeConnectionInLoop(const TcpConnectionPtr& conn);
+  /// The close callback of every connection.  Runs on the connection's io
+  /// thread, possibly while or after the server is destroyed on the base
+  /// loop's thread: it must not touch the server object at all.
+  static void removeConnectionGuarded(const std::weak_ptr<void>& alive,
+                                      TcpServer* server,
+                                      EventLoop* baseLoop,
+                                      const TcpConnectionPtr& conn);
+  /// In the base loop: the server is only used if it still exists.
+  static void removeConnectionIfAlive(const std::weak_ptr<void>& alive,
+                                      TcpServer* server,
+                                      const TcpConnectionPtr& conn);
 
   typedef std::map<string, TcpConnectionPtr> ConnectionMap;
 
@@ -112,6 +123,9 @@ class TcpServer : noncopyable
   // always in loop thread
   int nextConnId_;
   ConnectionMap connections_;
+  // expires first thing in the destructor (base loop thread), which is also
+  // the only thread that tests it
+  std::shared_ptr<void> alive_;
 };
 
 }  // namespace net
